@@ -635,7 +635,7 @@ def build_cases(ctx):
         cases += cases_for_graph(ctx, a, rng, 'dense%d' % n, True, [3, 4, 5], ('cliques', 'core'))
         ctx.count('random:dense')
     # larger graphs (heap depth >= 4, several levels of the clique recursion)
-    for name, a in random_graphs(ctx, rng, 10 if quick else 60, 24, 40):
+    for name, a in random_graphs(ctx, rng, 5 if quick else 60, 24, 36 if quick else 40):
         cases += cases_for_graph(ctx, a, rng, name, True, [2, 3, 4, rng.choice([5, 6])],
                                  ('tri', 'cc', 'core', 'cliques'))
         ctx.count('large:' + name.rstrip('0123456789'))
